@@ -29,6 +29,13 @@
 (*                 next attempt: the caller is parked in "sleep" until     *)
 (*   Tick          1 s passes: every sleeper re-reads and enters f again   *)
 (*                 (all sleepers share the deadline: time only moves here) *)
+(*   Bad(c, rf)    f returns a value the store cannot take (the codec      *)
+(*                 cannot serialise it / it is not a Mergeable): nothing   *)
+(*                 is written; Consul and etcd consume the attempt and     *)
+(*                 re-read whatever rf says, memberlist only if rf         *)
+(*   Other         a CAS on ANOTHER key of the same store succeeds: the    *)
+(*                 cells of different keys are independent, no caller of   *)
+(*                 this key can tell (only the store-wide counter moves)   *)
 (* A failed comparison and the re-read that follows it have no gate in     *)
 (* between in any backend and a failed comparison stays failed (ver only   *)
 (* grows while nobody deletes), so fusing them loses no reachable cell     *)
@@ -49,6 +56,8 @@ CONSTANTS NC,          \* callers 1..NC
                        \* a MultiClient mirrors every successful CAS into a second store of that kind
           WithDelete,  \* TRUE: a Delete action exists (outside C07: documentation configs)
           WithSame,    \* TRUE: f may also return its input unchanged (Same / Tick)
+          WithBad,     \* TRUE: f may also return a value the store cannot serialise / merge (Bad)
+          NOther,      \* writes to another key of the same store that may interleave (Other)
           NW,          \* watchers 1..NW (WatchKey / WatchPrefix on the key)
           Emit         \* TRUE: print one behaviour per transition (gen/replay binding)
 
@@ -207,6 +216,29 @@ Same(c, rf) ==
                          /\ Step("same", c, rf, "sleep", Nil)
                     ELSE NoWrite("same", c, rf, FALSE, cl[c].errs)
 
+(* f returns something that cannot be stored.  consul/client.go and etcd/etcd.go: codec.Encode  *)
+(* fails ("error serialising value") -> `continue`: the attempt is consumed, the key re-read and *)
+(* f entered again, whatever retry flag f returned; when the attempts are used up the call       *)
+(* fails.  memberlist trySingleCas: "invalid type ... expected Mergeable" is returned with f's    *)
+(* retry flag.  In no store does anything reach the cell.                                        *)
+Bad(c, rf) ==
+    /\ WithBad /\ cl[c].pc = "inf"
+    /\ cl[c].errs < MaxErr
+    /\ NoWrite("bad", c, rf, Backend # "memberlist" \/ rf, cl[c].errs + 1)
+
+(* A successful CAS on another key of the same store (through the same client).  ctr counts the *)
+(* writes to the store (Consul takes the next ModifyIndex from it), so the number of writes to   *)
+(* other keys so far is ctr - 1 - Len(applied).  Frame condition: this key's cell, its callers'  *)
+(* snapshots, its watchers and its mirror are untouched - a conditional write that looked at      *)
+(* anything store-wide (an index, a revision) would now fail or succeed differently.              *)
+Others == ctr - 1 - Len(applied)
+Other ==
+    /\ Others < NOther
+    /\ ctr' = ctr + 1
+    /\ UNCHANGED <<Backend, Secondary, Limit, cell, cl, applied, res, mirror, wt>>
+    /\ LET r == [a |-> "other", c |-> 0, rf |-> FALSE, e |-> "", in |-> Nil, val |-> cell.val, mir |-> mirror, n |-> Others + 1]
+       IN hist' = IF Emit THEN Append(hist, r) ELSE <<r>>
+
 Sleepers == {c \in Clients : cl[c].pc = "sleep"}
 
 Tick ==
@@ -248,9 +280,10 @@ Delete ==
     /\ Step("delete", 0, FALSE, "", Nil)
 
 Next == \/ \E c \in Clients : \/ Begin(c)
-                              \/ \E rf \in BOOLEAN : Put(c, rf) \/ Err(c, rf) \/ Same(c, rf)
+                              \/ \E rf \in BOOLEAN : Put(c, rf) \/ Err(c, rf) \/ Same(c, rf) \/ Bad(c, rf)
                               \/ Decline(c)
         \/ Tick
+        \/ Other
         \/ \E w \in Watchers : Watch(w) \/ \E i \in 1..Len(applied) : Deliver(w, i)
         \/ Delete
 
